@@ -1,9 +1,10 @@
 """C15 - temporal_dag is acyclic, sound and window-respecting."""
 import gen
-from props.base import PropBase, tup
+from props.base import PropBase, tup, bigio_case, with_bigio
 from props.pathscommon import graph_case, exhaustive_graphs, all_queries, base_program, World
 
 
+@with_bigio
 class C15(PropBase):
     id = 'C15'
     obs = {'tdag', 'occname'}
@@ -19,6 +20,10 @@ class C15(PropBase):
                 % ((2, '3rd') if tier == 'quick' else (3, '2nd'))]
 
     def exhaustive_cases(self, tier):
+        if self.id == 'C15':
+            # one LARGE graph per class (1 200 nodes, 15 instants: > 10 000 live occurrences in one call), implementation side only
+            yield bigio_case(('dag-big', False, 1200, 15))
+            yield bigio_case(('dag-big', True, 1200, 15))
         for directed in (False, True):
             for h in exhaustive_graphs(3, 3, 2 if tier == 'quick' else 3, step=3 if tier == 'quick' else 2):
                 yield dict(directed=directed, removal=True, hist=h, family='int', functional=False,
